@@ -110,7 +110,8 @@ where
         // minimum distance to any already-selected medoid. This ensures the medoids are spread out
         // while being deterministic.
         while medoids.len() < self.k {
-            let next_medoid = fold_reduce(
+            // NOTE: stop when every distinct point is already a medoid (k exceeds their amount)
+            let Some(next_medoid) = fold_reduce(
                 data,
                 || (f64::NEG_INFINITY, Option::<P>::None),
                 |(max_distance, best_medoid), point| {
@@ -129,7 +130,10 @@ where
                     if left.0 > right.0 { left } else { right }
                 },
             )
-            .1?;
+            .1
+            else {
+                break;
+            };
 
             medoids.push(next_medoid.clone());
         }
